@@ -786,6 +786,7 @@ class Dict(dict, base.Symbolic, pg_typing.CustomTyping):
     # Detach the removed value from object tree.
     if isinstance(value, base.TopologyAware):
       value.sym_setparent(None)
+      value.sym_setpath(utils.KeyPath())
     return key, value
 
   def clear(self) -> None:
@@ -800,6 +801,7 @@ class Dict(dict, base.Symbolic, pg_typing.CustomTyping):
     for value in removed:
       if isinstance(value, base.TopologyAware):
         value.sym_setparent(None)
+        value.sym_setpath(utils.KeyPath())
 
     if value_spec:
       self.use_value_spec(value_spec, self._allow_partial)
